@@ -134,6 +134,15 @@ def searchP (below atMost : Int → Bool) (n : Nat) : Int :=
 def search (lt le : α → α → Bool) (d : α) (bins : List α) (val : α) : Int :=
   searchP (fun i => lt (getW d bins i) val) (fun i => le val (getW d bins i)) bins.length
 
+/-- one cell of `_cpu_bin` over any number type: the two comparisons, the finiteness test and the NaN value
+    are parameters (`Fl.lt`, `Fl.le`, `Fl.isfinite`, `Fl.nan` for the generated program `Gen.IL.cpuBin`,
+    `Ext.lt`, `Ext.le`, `Ext.isFinite`, `.nan` for `cell` below) -/
+def cellG (lt le : α → α → Bool) (isfin : α → Bool) (d : α) (bins newv : List α) (v : α) : α :=
+  if isfin v then
+    let r := search lt le d bins v
+    if r > -1 then getW d newv r else d
+  else d
+
 end generic
 
 /-- how `_run_numpy_bin` re-binds an operand before the search: not at all / `np.asarray(x)` (`none`),
